@@ -409,7 +409,7 @@ Inductive aop :=
 | ASetMetaItem (name : N) (e : ment)         (* SetCacheFileMetadata(entry.MetaInfo) by a drain worker *)
 | AMoveItem (name : N) (e : ment)            (* the drain's WriteCacheFile of an item *)
 | AMemRemove (name : N)                      (* memCache.Remove *)
-| AMemRemoveBatch (names : list N)           (* memCache.RemoveBatch (any subset: every TTL / clock) *)
+| AMemFilter (keep : N -> ment -> bool)      (* memCache.RemoveBatch of any set of entries (every TTL, every clock) *)
 | ASetPersist (name : N) (v : bool)          (* SetCacheFileMetadata(Persist) / DeleteCacheFileMetadata *)
 | ADelete (name : N).                        (* DeleteCacheFile (refused while persisted) *)
 
@@ -471,8 +471,8 @@ Definition astep (a : ast) (o : aop) : ast :=
       then mkast (aset name (mkdent (m_data e) None false) (a_disk a)) (a_mem a) (a_items a) (a_seen a)
       else a
   | AMemRemove name => mkast (a_disk a) (aremove name (a_mem a)) (a_items a) (a_seen a)
-  | AMemRemoveBatch names =>
-      mkast (a_disk a) (fold_left (fun m n => aremove n m) names (a_mem a)) (a_items a) (a_seen a)
+  | AMemFilter keep =>
+      mkast (a_disk a) (filter (fun p => keep (fst p) (snd p)) (a_mem a)) (a_items a) (a_seen a)
   | ASetPersist name v =>
       match alookup name (a_disk a) with
       | Some d => mkast (aset name (mkdent (d_data d) (d_meta d) v) (a_disk a)) (a_mem a) (a_items a) (a_seen a)
